@@ -37,7 +37,7 @@ PROB = {
     'numpy': {'xref': '`nopeX`', 'param': 'Parameters\n----------\nzzX: int\n    nothing'},
 }
 POSITIONS = ['p1l1', 'p1l2', 'p2', 'li', 'fb']
-OWNERS = ['module', 'class', 'function', 'method', 'attribute', 'inherited', 'reexported']
+OWNERS = ['module', 'class', 'function', 'method', 'attribute', 'inherited', 'reexported', 'classfield', 'classfield+inline']
 # (text on the opening line, leading lines below the quotes)
 LAYOUTS: List[Tuple[bool, List[str]]] = [(True, []), (False, []), (False, ['']), (False, ['', '']), (False, ['WS']), (False, ['TRAIL'])]
 
@@ -85,8 +85,15 @@ def module_source(owner: str, fmt: str, kind: str, pos: str, layout: Tuple[bool,
         return None
     if pos == 'fb' and owner in ('module', 'attribute', 'class'):
         return None
-    if owner in ('inherited', 'reexported') and (nest or raw or layout[1] not in ([], [''])):
+    if owner in ('inherited', 'reexported', 'classfield', 'classfield+inline') and (nest or raw or layout[1] not in ([], [''])):
         return None          # these owners vary the location of the object, not the layout of the literal
+    if owner.startswith('classfield'):
+        # the problem sits in the body of an @ivar field of the class docstring, which documents the attribute q
+        if kind != 'xref' or pos != 'p2' or fmt in ('google', 'numpy'):
+            return None
+        p_ = PROB[fmt]['xref'].replace('X', '1')
+        tag = '@ivar q:' if fmt == 'epytext' else ':ivar q:'
+        body, pidx, sidx = ['Para one.', '', f'{tag} the q {p_} end'], 2, 2
     first_on_open, lead = layout
     q = ('r' if raw else '') + '"""'
 
@@ -122,11 +129,15 @@ def module_source(owner: str, fmt: str, kind: str, pos: str, layout: Tuple[bool,
         d, off = doc('')
         base = len(lines)
         lines += d + ['x = 1']
-    elif owner == 'class':
+    elif owner in ('class', 'classfield', 'classfield+inline'):
         d, off = doc(ind + '    ')
         lines += pre + [ind + 'class K:']
         base = len(lines)
         lines += d + [ind + '    def __init__(self, a): pass']
+        if owner == 'classfield':
+            lines += [ind + '    q = 1']
+        elif owner == 'classfield+inline':
+            lines += [ind + '    q = 1', ind + '    """inline docstring of q"""']
     elif owner == 'function':
         d, off = doc(ind + '    ')
         lines += pre + ([ind + ('@staticmethod' if nest else '@deco')] if deco else []) + [ind + ('def f(a):' if (not nest or deco) else 'def f(self, a):')]
